@@ -110,7 +110,8 @@ fn pstr(p: &[String]) -> String {
 // ------------------------------------------------------------------ tree generation
 
 fn namespace2() -> Vec<Vec<String>> {
-    let names = ["a", "b"];
+    // the two names: "ab" extends "a" character-wise, so that a string-prefix test where a component-wise one is meant shows
+    let names = ["a", "ab"];
     let mut v = vec![];
     for a in names {
         v.push(vec![a.to_string()]);
